@@ -28,6 +28,11 @@ Conforms(o) ==
      THEN /\ o.out.served                            \* the plugin came up and printed a line
           /\ o.out.line_version = a[1] /\ o.out.line_proto = a[2]
           /\ o.out.plugin_tag = a[1]               \* and serves the set registered under the version it announced
+     ELSE IF o.layer = "testmode"
+     THEN \* served in-process in test mode: what the reattached client reports is the version whose set it is served
+          /\ o.out.served
+          /\ o.out.line_version = a[1] /\ o.out.line_proto = a[2]
+          /\ o.out.negotiated = a[1] /\ o.out.plugin_tag = a[1]
      ELSE LET H == SetOf(o.host) IN
           /\ Understood(o) = H                       \* a real client sends exactly what it offers
           /\ IF a[1] \in H
